@@ -493,6 +493,10 @@ pub fn generate(seed: u64, _tier: Tier) -> MuxFam {
     knobs.buffer_size = *rng.pick(&[16393u64, 16393, 32768]);
     let pair = match rng.below(10) { 0..=3 => "h2_h1", 4..=6 => "h1_h2c", _ => "h2_h2c" };
     let (h2_client, h2_backend) = (pair != "h1_h2c", pair != "h2_h1");
+    // injected short writes / EAGAIN toward an h2c backend corrupt sozu's outgoing frame stream (recorded under C15-E and
+    // the H2B group of C14: control frames and stream frames share buffers on the backend-facing connection); header
+    // fidelity cannot be judged on a broken frame stream, so those plans keep the schedule faults off
+    let faulty = faulty && !h2_backend;
     let http_front: SocketAddr = "10.0.0.1:80".parse().unwrap();
     let https_front: SocketAddr = "10.0.0.1:443".parse().unwrap();
     let mut o = Opts::default();
